@@ -283,7 +283,9 @@ func ruleUncheckedAssertions(c *core.Ctx, rule, rel string, allowed map[string]s
 					continue
 				}
 				key := "unchecked-assert@" + core.FuncKey(fn) + ":" + types.TypeString(ta.AssertedType, func(p *types.Package) string { return p.Name() })
-				if why, ok := allowed[core.FuncKey(fn)]; ok {
+				// an exception names the function and the asserted type: a second unchecked
+				// assertion added to an excepted builder is not covered by it
+				if why, ok := allowed[core.FuncKey(fn)+":"+types.TypeString(ta.AssertedType, func(p *types.Package) string { return p.Name() })]; ok {
 					c.Pass(rule, key, ta.Pos(), "accepted: "+why)
 					continue
 				}
